@@ -327,7 +327,8 @@ def build(p: dict, scratch: str):
             if t_.data_location != TensorProto.EXTERNAL:
                 t_.data_location = TensorProto.DEFAULT
                 break
-        m.graph.value_info[0].doc_string = ""
+        if len(m.graph.value_info):
+            m.graph.value_info[0].doc_string = ""
     info = {"aside": len(aside), "functions": len(functions), "inits": len(inits), "nodes": len(nodes)}
     return m, aside, info
 
